@@ -503,7 +503,9 @@ func aggregate(prop, tier string, seed int, spec propSpec, results []*rep.Result
 		states += r.States
 		trans += r.Transitions
 		distinct += r.Distinct
-		exhaustive = exhaustive && r.Exhaustive
+		if !r.Supporting {
+			exhaustive = exhaustive && r.Exhaustive
+		}
 		for _, s := range r.Samples {
 			if len(samples) < 6 {
 				samples = append(samples, s)
@@ -526,7 +528,7 @@ func aggregate(prop, tier string, seed int, spec propSpec, results []*rep.Result
 			outcomes[r.Engine+":"+k] += v
 		}
 		engines = append(engines, map[string]any{"engine": r.Engine, "evaluations": r.Evaluations, "states": r.States,
-			"transitions": r.Transitions, "distinct": r.Distinct, "exhaustive": r.Exhaustive, "bounds": r.Bounds, "wall_s": r.WallS,
+			"transitions": r.Transitions, "distinct": r.Distinct, "exhaustive": r.Exhaustive, "supporting_only": r.Supporting, "bounds": r.Bounds, "wall_s": r.WallS,
 			"findings": len(r.Findings)})
 		for _, f := range r.Findings {
 			all = append(all, vf{f, r.Engine})
